@@ -114,7 +114,7 @@ func runR154(c *core.Ctx) {
 	ast.Inspect(fd.Body, func(x ast.Node) bool {
 		if as, ok := x.(*ast.AssignStmt); ok && as.Tok == token.DEFINE && len(as.Rhs) == 1 && uObj == nil {
 			if call, ok := core.Unparen(as.Rhs[0]).(*ast.CallExpr); ok {
-				if cf := core.Callee(inf, call); cf != nil && cf.Name() == "formatQueryUrl" {
+				if cf := core.Callee(inf, call); cf != nil && core.NameOf(cf) == "formatQueryUrl" {
 					uObj = core.ObjOf(inf, as.Lhs[0])
 				}
 			}
@@ -154,7 +154,7 @@ func runR047(c *core.Ctx) {
 			ast.Inspect(e, func(x ast.Node) bool {
 				switch y := x.(type) {
 				case *ast.SelectorExpr:
-					if fv, ok := core.ObjOf(inf, y).(*types.Var); ok && fv.IsField() && fv.Name() == "ContentLength" && fv.Pkg() != nil && fv.Pkg().Path() == "net/http" {
+					if fv, ok := core.ObjOf(inf, y).(*types.Var); ok && fv.IsField() && core.NameOf(fv) == "ContentLength" && fv.Pkg() != nil && fv.Pkg().Path() == "net/http" {
 						found = true
 					}
 				case *ast.Ident:
@@ -162,7 +162,7 @@ func runR047(c *core.Ctx) {
 						found = true
 					}
 				case *ast.CallExpr:
-					if cf := core.Callee(inf, y); cf != nil && cf.Name() == "Get" && core.IsMethod(cf, "net/http", "Header", "Get") {
+					if cf := core.Callee(inf, y); cf != nil && core.NameOf(cf) == "Get" && core.IsMethod(cf, "net/http", "Header", "Get") {
 						found = true
 					}
 				}
@@ -193,7 +193,7 @@ func runR047(c *core.Ctx) {
 			}
 			var sizeArgs []ast.Expr
 			what := ""
-			if cf := core.Callee(inf, call); cf != nil && cf.Name() == "Grow" && (core.IsMethod(cf, "bytes", "Buffer", "Grow") || core.IsMethod(cf, "strings", "Builder", "Grow")) {
+			if cf := core.Callee(inf, call); cf != nil && core.NameOf(cf) == "Grow" && (core.IsMethod(cf, "bytes", "Buffer", "Grow") || core.IsMethod(cf, "strings", "Builder", "Grow")) {
 				sizeArgs, what = call.Args, "Grow"
 			}
 			if id, ok := core.Unparen(call.Fun).(*ast.Ident); ok && id.Name == "make" {
@@ -497,11 +497,11 @@ func runR116(c *core.Ctx) {
 				return false
 			}
 			f := core.Callee(inf, call)
-			return f != nil && f.Name() == "UnmarshalDeleteField"
+			return f != nil && core.NameOf(f) == "UnmarshalDeleteField"
 		}
 		isSentinel := func(e ast.Expr) bool {
 			o := core.ObjOf(inf, e)
-			return o != nil && o.Name() == "NoSuchFieldErr"
+			return o != nil && core.NameOf(o) == "NoSuchFieldErr"
 		}
 		var errObj types.Object // the variable holding the pending verdict
 		var problems []string
@@ -614,7 +614,7 @@ func runR025(c *core.Ctx) {
 				}
 			case *ast.SelectorExpr:
 				fv, ok := core.ObjOf(inf, y).(*types.Var)
-				if !ok || !fv.IsField() || fv.Pkg() == nil || fv.Pkg().Path() != "net/url" || fv.Name() != "Path" {
+				if !ok || !fv.IsField() || fv.Pkg() == nil || fv.Pkg().Path() != "net/url" || core.NameOf(fv) != "Path" {
 					return true
 				}
 				// a store?
@@ -685,7 +685,7 @@ func runR155(c *core.Ctx) {
 				}
 				defs[o] = append(defs[o], def{as.Rhs[i], as.End()})
 				if call, ok := core.Unparen(as.Rhs[i]).(*ast.CallExpr); ok {
-					if f := core.Callee(inf, call); f != nil && f.Name() == "RootResource" {
+					if f := core.Callee(inf, call); f != nil && core.NameOf(f) == "RootResource" {
 						rootObj = o
 					}
 				}
@@ -855,7 +855,7 @@ func ownedURL(inf *types.Info, fd *ast.FuncDecl, o types.Object) bool {
 			switch r := core.Unparen(rhs).(type) {
 			case *ast.CallExpr:
 				f := core.Callee(inf, r)
-				if core.IsFunc(f, "net/url", "Parse") || core.IsFunc(f, "net/url", "ParseRequestURI") || (f != nil && f.Name() == "formatQueryUrl") {
+				if core.IsFunc(f, "net/url", "Parse") || core.IsFunc(f, "net/url", "ParseRequestURI") || (f != nil && core.NameOf(f) == "formatQueryUrl") {
 					good = true
 				}
 				if id, isId := core.Unparen(r.Fun).(*ast.Ident); isId && id.Name == "new" {
@@ -1239,11 +1239,11 @@ func runR067(c *core.Ctx) {
 				continue
 			}
 		case *ast.CallExpr:
-			if f := core.Callee(inf, x); f != nil && f.Name() == "IsStart" {
+			if f := core.Callee(inf, x); f != nil && core.NameOf(f) == "IsStart" {
 				c.OK(rel, name, "atInputStart is position-based", fd.Pos(), core.ExprString(res))
 				continue
 			}
-			if f := core.Callee(inf, x); f != nil && f.Name() == "atInputStart" {
+			if f := core.Callee(inf, x); f != nil && core.NameOf(f) == "atInputStart" {
 				c.OK(rel, name, "atInputStart delegates to the embedded reader", fd.Pos(), core.ExprString(res))
 				continue
 			}
@@ -2533,7 +2533,7 @@ func runR018(c *core.Ctx) {
 					return true
 				}
 				key := core.ObjOf(inf, rs.Key)
-				if key == nil || key.Name() == "_" {
+				if key == nil || core.NameOf(key) == "_" {
 					return true
 				}
 				total++
@@ -2613,7 +2613,7 @@ func runR127(c *core.Ctx) {
 				if f == nil || f.Pkg() == nil {
 					return true
 				}
-				isSort := (f.Pkg().Path() == "sort" && (f.Name() == "Slice" || f.Name() == "SliceStable")) || (f.Pkg().Path() == "slices" && strings.HasPrefix(f.Name(), "Sort"))
+				isSort := (f.Pkg().Path() == "sort" && (core.NameOf(f) == "Slice" || core.NameOf(f) == "SliceStable")) || (f.Pkg().Path() == "slices" && strings.HasPrefix(f.Name(), "Sort"))
 				if !isSort || len(call.Args) < 2 {
 					return true
 				}
